@@ -1,5 +1,5 @@
 (* drv_c20.ml -- usage: drv_c20 cases.txt impl.txt *)
-let kinds = [| "NotFound"; "PermissionDenied"; "InvalidData"; "UnexpectedEof"; "Other" |]
+let kinds = [| "NotFound"; "PermissionDenied"; "InvalidData"; "UnexpectedEof"; "Other"; "ConnectionRefused"; "ConnectionReset"; "ConnectionAborted"; "NotConnected"; "AddrInUse"; "AddrNotAvailable"; "BrokenPipe"; "AlreadyExists"; "WouldBlock"; "InvalidInput"; "TimedOut"; "WriteZero"; "Interrupted"; "Unsupported"; "OutOfMemory"; "StorageFull"; "QuotaExceeded"; "FileTooLarge"; "ReadOnlyFilesystem"; "DirectoryNotEmpty"; "IsADirectory"; "NotADirectory"; "ResourceBusy"; "Deadlock"; "TooManyLinks"; "InvalidFilename"; "ArgumentListTooLong"; "HostUnreachable"; "NetworkUnreachable"; "NetworkDown"; "NotSeekable"; "StaleNetworkFileHandle"; "CrossesDevices"; "ExecutableFileBusy" |]
 let bytes_of_string s = List.init (String.length s) (fun i -> n_of_int (Char.code s.[i]))
 let b01 b = if b then "1" else "0"
 let () =
@@ -36,6 +36,26 @@ let () =
             (match obs with
              | None -> "oracle=fail@unparsable"
              | Some o -> if oracle_err cls name kd tx o then "oracle=ok" else "oracle=fail@error-mapping")) in
+      Printf.printf "%s | %s\n" m v
+    | ["reqconn"; n; _bytes] ->
+      (* the connection loop answers a request-reading error with the mapped response: its status, and -- the
+         property's last clause -- a 5xx among them is marked `connection: close` and the connection is closed *)
+      let name = bytes_of_tok n in
+      let (m, v) = (match lookup_err err_table name with
+          | None -> ("unknown", "oracle=fail@unknown-variant")
+          | Some e ->
+            (match respond e [] [] with
+             | None -> ("none 0 1", (match it with ["none"; _; "1"] -> "oracle=ok" | _ -> "oracle=fail@drop-expected"))
+             | Some (c, _) ->
+               let cl = in_close_range close_lo close_hi c in
+               (string_of_int (int_of_n c) ^ " " ^ b01 cl ^ " 1",
+                (match it with
+                 | [st; hc; sh] ->
+                   let code = (try int_of_string st with _ -> 0) in
+                   if code <> int_of_n c then "oracle=fail@error-mapping"
+                   else if not (oracle_close (n_of_int code) (hc = "1") (sh = "1")) then "oracle=fail@5xx-not-closed"
+                   else if sh <> "1" then "oracle=fail@connection-left-open-after-an-error" else "oracle=ok"
+                 | _ -> "oracle=fail@unparsable")))) in
       Printf.printf "%s | %s\n" m v
     | "conn" :: c :: _ ->   (* further tokens: handler-supplied header fields; the close rule does not depend on them *)
       let code = n_of_int (int_of_string c) in
